@@ -3,9 +3,10 @@ import ast
 import re
 
 from ..core import AnalysisError, src, qualname_of, closure_walk
-from ..pysym import SymExec, show, subterms, str_parts
+from ..pysym import SymExec, show, subterms, str_parts, argof, guards_of
 from ..rules_pyx import N, C, A
 from .. import codec
+from .. import logic
 from .c19 import grammar_labels
 
 EXPLANATION = (
@@ -341,21 +342,20 @@ def r_ccg2lambda_vocab(repo, rep, R='R15.4'):
     plain = None
     feeds = []
     for st, o in SymExec(ts, unroll=1).run():
-        eqs = {c[3][1] for c, pol, _ in st.conds if pol and c[0] == 'cmp' and c[1] == '==' and c[2] == N('format') and c[3][0] == 'const'}
-        excluded = set()
-        for c, pol, _ in st.conds:
-            if c[0] == 'cmp' and c[1] == 'in' and c[2] == N('format') and c[3][0] in ('tuple', 'list', 'set') and not pol:
-                excluded |= {x[1] for x in c[3][1] if x[0] == 'const'}
-            if c[0] == 'cmp' and c[1] == '==' and c[2] == N('format') and c[3][0] == 'const' and not pol:
-                excluded.add(c[3][1])
-        if len(eqs) > 1 or eqs & excluded:
+        base = [(c, pol) for c, pol, _ in st.conds]
+        allowed, excluded = logic.selector_values(base, N('format'))
+        if allowed is not None and not allowed:
             continue        # infeasible combination of tests on `format`
         for e in st.events:
-            if e[0] == 'call' and e[1][1] == N('to_jigg_xml'):
-                kw = dict(e[1][3])
-                us = kw.get('use_symbol', e[1][2][1] if len(e[1][2]) > 1 else None)
-                fmt = [c[3][1] for c, pol, _ in st.conds if pol and c[0] == 'cmp' and c[1] == '==' and c[2] == N('format') and c[3][0] == 'const']
-                feeds.append((fmt[-1] if fmt else None, us, e[2]))
+            e0 = e[1:] if e[0] == 'in-comp' else e
+            if e0[0] == 'call' and e0[1][1] == N('to_jigg_xml'):
+                us = argof(e0[1], 'use_symbol', 1)
+                al, ex = logic.selector_values(base + list(guards_of(st, e)), N('format'))
+                if al is not None and not al:
+                    continue
+                fmts = sorted(al) if al else [None]
+                for fmt in fmts:
+                    feeds.append((fmt, us, e0[2]))
     by_fmt = {}
     for fmt, us, node in feeds:
         by_fmt.setdefault(fmt, set()).add(us)
